@@ -230,16 +230,19 @@ func dimN(t *rapid.T, label string, bits uint, min uint32) uint32 {
 	return uint32(rapid.IntRange(int(min), int(max)).Draw(t, label))
 }
 
-// chunkLen draws an ancillary payload length so that later structures straddle 4096*k.
+// chunkLen draws an ancillary payload length so that later structures straddle a multiple of 4096 (or of 8, 16, 32, 64 KiB).
 func chunkLen(t *rapid.T, label string, pos int, max int) int {
 	if max < 0 {
 		max = 0
 	}
 	if rapid.IntRange(0, 2).Draw(t, label+"straddle") == 0 {
 		// place the end of this chunk (pos + 8 + n + 4 for PNG-like framing) within +-6 of a 4096 boundary
-		target := ((pos+12)/4096+1)*4096 + rapid.IntRange(-7, 7).Draw(t, label+"delta")
+		// (mostly the next multiple of 4096; sometimes of a larger power of two - readers, probes and scratch
+		// buffers come in 8, 16, 32 and 64 KiB too)
+		blk := rapid.SampledFrom([]int{4096, 4096, 4096, 4096, 8192, 16384, 16384, 32768, 65536}).Draw(t, label+"block")
+		target := ((pos+12)/blk+1)*blk + rapid.IntRange(-7, 7).Draw(t, label+"delta")
 		n := target - pos - 12
-		if n >= 0 && n <= max {
+		if n >= 0 && (n <= max || (blk > 4096 && max >= 300 && n <= 65000)) { // 65000: still fits a JPEG segment
 			return n
 		}
 	}
